@@ -447,6 +447,9 @@ func TestLbSeq(t *testing.T) {
 		idx := 0
 		emit := func(kind string, c LbCase) {
 			if Mine(idx) {
+				if pre, err := json.Marshal(c); err == nil {
+					cw.Begin(idx, kind, pre)
+				}
 				coq, stats := runLbCase(&c)
 				repl, _ := json.Marshal(c)
 				cw.Put(Case{Idx: idx, Kind: kind, Coq: coq, Repl: repl, Stats: stats})
